@@ -301,6 +301,8 @@ def b_enumerate(I, v, start=0):
 
 
 def b_zip(I, *vs):
+    if any(I.concrete_items(v) is None for v in vs):
+        return SymZip(tuple(I.seq_value(v) for v in vs))
     return tuple(zip(*[I.need_items(v) for v in vs]))
 
 
@@ -551,6 +553,8 @@ def set_method(I, s, name, args, kwargs):
 
 def list_method(I, l, name, args, kwargs):
     p = I.heap[l.oid]
+    if kwargs and name in ('remove', 'append', 'pop', 'index', 'insert', 'extend'):
+        raise TargetExc(I.make_exception(TypeError, ['list.%s() takes no keyword arguments' % name], {}))
     if isinstance(p, tuple):
         if name == 'append':
             I.heap[l.oid] = p + (args[0],)
